@@ -153,10 +153,18 @@ theorem flatWordParts_sub_cmdParts (ctx : CmdCtx) (wd : Word) (pos : Nat) (ps : 
       cases p <;> simp_all
     Â· right; exact ih h
 
+/-- the text atom of an array-element assignment's subscript -/
+def subscriptAtoms (v : String) (cwd : String) (r : Bool) : List Atom :=
+  match assignSubscript v with
+  | some t => [.text false (some t) cwd r]
+  | none => []
+
 theorem flatCmdWords_cons (ctx : CmdCtx) (v : String) (ps : List Part) (ws : List Word) (pos : Nat) (cwd : String) (r : Bool) :
     flatCmdWords s ctx (.mk v ps :: ws) pos cwd r
-      = flatCmdParts s ctx (.mk v ps) pos ps cwd r ++ flatCmdWords s ctx ws (pos + 1) cwd r := by
+      = subscriptAtoms v cwd r ++ flatCmdParts s ctx (.mk v ps) pos ps cwd r ++ flatCmdWords s ctx ws (pos + 1) cwd r := by
   conv => lhs; unfold flatCmdWords
+  unfold subscriptAtoms
+  cases hs : assignSubscript v <;> simp [hs]
 
 theorem flatWord_mk (v : String) (ps : List Part) (cwd : String) (r : Bool) :
     flatWord s (.mk v ps) cwd r = flatWordParts s (.mk v ps) ps cwd r := by
@@ -173,9 +181,25 @@ theorem mem_flatCmdWords (ctx : CmdCtx) {ws : List Word} {wd : Word} (hw : wd âˆ
       simp only [List.mem_append]
       cases hw with
       | head =>
-        left
+        left; right
         rw [flatWord_mk] at hx
         exact flatWordParts_sub_cmdParts s ctx _ pos ps cwd r x hx
+      | tail _ h => right; exact ih h (pos + 1)
+
+theorem mem_flatCmdWords_subscript (ctx : CmdCtx) {ws : List Word} {wd : Word} (hw : wd âˆˆ ws) (pos : Nat) (cwd : String) (r : Bool)
+    (t : String) (ht : assignSubscript wd.value = some t) : Atom.text false (some t) cwd r âˆˆ flatCmdWords s ctx ws pos cwd r := by
+  induction ws generalizing pos with
+  | nil => cases hw
+  | cons m ms ih =>
+    cases m with
+    | mk v ps =>
+      rw [flatCmdWords_cons]
+      simp only [List.mem_append]
+      cases hw with
+      | head =>
+        left; left
+        have : assignSubscript v = some t := ht
+        simp [subscriptAtoms, this]
       | tail _ h => right; exact ih h (pos + 1)
 
 theorem mem_flatCasePats_text {pats : List CasePat} {pat : String} {body : Option Node} (hp : CasePat.mk pat body âˆˆ pats)
@@ -213,6 +237,11 @@ theorem child_atoms (w : World) (r : Bool) (a b : Piece Ã— String)
   case cmdWord ws rs cwd wd hw =>
     simp only [flat]; simp only [List.mem_append]; left; left
     exact mem_flatCmdWords _ _ hw 0 cwd r x hx
+  case cmdSubscript ws rs cwd wd t hw ht =>
+    simp only [flat]; simp only [List.mem_append]; left; left
+    have hxx : x = Atom.text false (some t) cwd r := by simpa using hx
+    rw [hxx]
+    exact mem_flatCmdWords_subscript _ _ hw 0 cwd r t ht
   case cmdRedir ws rs cwd rd hr =>
     simp only [flat]; simp only [List.mem_append]; left; right
     exact mem_flatRedirects _ hr cwd r x hx
